@@ -5,6 +5,7 @@ package sym
 
 import (
 	"fmt"
+	"go/token"
 	"go/types"
 	"math"
 	"runtime"
@@ -181,36 +182,33 @@ func (i *interpreter) bytesCompare(a, b []value) value {
 	if len(b) < n {
 		n = len(b)
 	}
+	symbolic := false
 	for k := 0; k < n; k++ {
-		x, okx := a[k].(uint8)
-		y, oky := b[k].(uint8)
+		_, okx := a[k].(uint8)
+		_, oky := b[k].(uint8)
 		if !okx || !oky {
-			// symbolic: decide equality then order by branching
-			eq := i.equals(types.Typ[types.Uint8], a[k], b[k])
-			if t, ok := eq.(*Term); ok {
-				if i.p.branch(t, "bytes.Compare eq") {
-					continue
-				}
-			} else if eq.(bool) {
-				continue
-			}
-			lt := i.binop(tokenLSS, types.Typ[types.Uint8], a[k], b[k])
-			if t, ok := lt.(*Term); ok {
-				if i.p.branch(t, "bytes.Compare lt") {
-					return -1
-				}
-				return 1
-			}
-			if lt.(bool) {
+			symbolic = true
+		}
+	}
+	if symbolic {
+		// compare the common prefix as big-endian unsigned integers
+		st := i.p.st()
+		wa, wb := i.concatBytes(a[:n]), i.concatBytes(b[:n])
+		if !i.p.branch(st.Eq(wa, wb), "bytes.Compare eq") {
+			if i.p.branch(st.bvCmp("bvult", wa, wb), "bytes.Compare lt") {
 				return -1
 			}
 			return 1
 		}
-		if x < y {
-			return -1
-		}
-		if x > y {
-			return 1
+	} else {
+		for k := 0; k < n; k++ {
+			x, y := a[k].(uint8), b[k].(uint8)
+			if x < y {
+				return -1
+			}
+			if x > y {
+				return 1
+			}
 		}
 	}
 	switch {
@@ -459,3 +457,115 @@ func (i *interpreter) errorsAs(err, target iface) value {
 }
 
 var _ = sort.Ints
+
+// ---- btcd models ----
+
+func init() {
+	// BlockHash: injective UF over the 80 serialized bytes.
+	reg("(*github.com/btcsuite/btcd/wire/v2.BlockHeader).BlockHash", func(fr *frame, a []value) value {
+		p := ptrArg(a[0])
+		return array(fr.i.hashUF("blk", fr.i.serializeHeader((*p).(structure))))
+	})
+}
+
+// leBytes splits an integer value into n little-endian bytes.
+func (i *interpreter) leBytes(v value, n int) []value {
+	st := i.p.st()
+	t := st.lift(v)
+	out := make([]value, n)
+	for k := 0; k < n; k++ {
+		out[k] = termToValue(st.Extract(t, 8*k+7, 8*k), types.Typ[types.Uint8])
+	}
+	return out
+}
+
+// serializeHeader produces the 80-byte wire encoding of a
+// wire.BlockHeader structure {Version, PrevBlock, MerkleRoot, Timestamp, Bits, Nonce}.
+func (i *interpreter) serializeHeader(h structure) []value {
+	var out []value
+	out = append(out, i.leBytes(h[0], 4)...)
+	out = append(out, h[1].(array)...)
+	out = append(out, h[2].(array)...)
+	// Timestamp: time.Time{wall, ext, loc}; Unix seconds = ext - unixToInternal when no monotonic reading
+	ts := h[3].(structure)
+	wall, okw := ts[0].(uint64)
+	if !okw || wall&(1<<63) != 0 {
+		panic(engineError{"serializeHeader: timestamp with monotonic clock reading or symbolic wall"})
+	}
+	const unixToInternal = 62135596800
+	sec := i.binop(token.SUB, types.Typ[types.Int64], ts[1], int64(unixToInternal))
+	sec32 := i.conv(types.Typ[types.Uint32], types.Typ[types.Int64], sec)
+	out = append(out, i.leBytes(sec32, 4)...)
+	out = append(out, i.leBytes(h[4], 4)...)
+	out = append(out, i.leBytes(h[5], 4)...)
+	return out
+}
+
+// ---- generic hashing: every digest is an injective UF of its input ----
+
+func init() {
+	ch := "github.com/btcsuite/btcd/chainhash/v2."
+	hashOf := func(name string) externalFn {
+		return func(fr *frame, a []value) value {
+			b := a[0].([]value)
+			if len(b) == 0 {
+				b = []value{uint8(0xEE)} // distinguished empty input
+			}
+			return array(fr.i.hashUF(name, b))
+		}
+	}
+	hashOfSlice := func(name string) externalFn {
+		return func(fr *frame, a []value) value {
+			b := a[0].([]value)
+			if len(b) == 0 {
+				b = []value{uint8(0xEE)}
+			}
+			return fr.i.hashUF(name, b)
+		}
+	}
+	reg(ch+"HashH", hashOf("sha"))
+	reg(ch+"DoubleHashH", hashOf("dsha"))
+	reg(ch+"HashB", hashOfSlice("sha"))
+	reg(ch+"DoubleHashB", hashOfSlice("dsha"))
+	reg("crypto/sha256.Sum256", hashOf("sha"))
+	reg(ch+"DoubleHashRaw", func(fr *frame, a []value) value {
+		// func DoubleHashRaw(serialize func(w io.Writer) error) Hash
+		i := fr.i
+		bufT := i.namedType("bytes", "Buffer")
+		cell := zero(bufT)
+		w := iface{t: types.NewPointer(bufT), v: &cell}
+		call(i, fr, fr.fn.Pos(), a[0], []value{w})
+		s := cell.(structure)
+		data := s[fieldIndex(bufT, "buf")].([]value)
+		off := s[fieldIndex(bufT, "off")].(int)
+		b := data[off:]
+		if len(b) == 0 {
+			b = []value{uint8(0xEE)}
+		}
+		return array(i.hashUF("dsha", b))
+	})
+}
+
+// BuildBasicFilter: the filter of a block is an opaque function of the
+// block hash and the previous-output scripts handed in.
+func init() {
+	reg("github.com/btcsuite/btcd/btcutil/v2/gcs/builder.BuildBasicFilter", func(fr *frame, a []value) value {
+		i := fr.i
+		blk := ptrArg(a[0])
+		hdrT := i.namedType("github.com/btcsuite/btcd/wire/v2", "MsgBlock")
+		hdr := (*blk).(structure)[fieldIndex(hdrT, "Header")].(structure)
+		in := append([]value(nil), i.hashUF("blk", i.serializeHeader(hdr))...)
+		for _, s := range a[1].([]value) {
+			in = append(in, s.([]value)...)
+		}
+		data := i.hashUF("gcs", in)
+		ft := i.namedType("github.com/btcsuite/btcd/btcutil/v2/gcs", "Filter")
+		s := zero(ft).(structure)
+		s[fieldIndex(ft, "n")] = uint32(1)
+		s[fieldIndex(ft, "p")] = uint8(19)
+		s[fieldIndex(ft, "modulusNP")] = uint64(784931) << 19
+		s[fieldIndex(ft, "filterData")] = append([]value(nil), data...)
+		cell := value(s)
+		return tuple{&cell, iface{}}
+	})
+}
